@@ -125,6 +125,13 @@ def junk_dgram(rng, tag: int, kind: Optional[str] = None) -> bytes:
             if code.hex() not in codecs.MODELS:
                 break
         b[74:76] = code
+        r = rng.random()
+        if r < 0.25:
+            b[42 + rng.randrange(0, 8)] = rng.choice([0xff, 0xc0, 0x80, 0xfe])     # ... and a name that is not UTF-8
+        elif r < 0.4:
+            b[76:] = rng.randbytes(len(b) - 76)                                     # ... and an arbitrary body
+        elif r < 0.5:
+            b[2:74] = rng.randbytes(72)
         return bytes(b)
     if kind == "undecodable":
         b = bytearray(v)
@@ -142,7 +149,16 @@ def junk_dgram(rng, tag: int, kind: Optional[str] = None) -> bytes:
     raise ValueError(kind)
 
 
+def gen_src(rng) -> List[Any]:
+    ip = rng.choice(["192.168.1.50", "10.0.0.7", "172.16.5.9", "8.8.8.8", "169.254.1.1", "127.0.0.1", "255.255.255.255",
+                     "%d.%d.%d.%d" % tuple(rng.randrange(1, 255) for _ in range(4))])
+    port = rng.choice([20002, 20003, 10002, 10003, 53, 1, 65535, rng.randrange(1024, 65536)])
+    return [ip, port]
+
+
 def net_faults(rng, st: Dict[str, Any], p_drop=0.05, p_dup=0.1, p_delay=0.4):
+    if rng.random() < 0.5:
+        st["src"] = gen_src(rng)
     if rng.random() < p_delay:
         st["delay"] = round(rng.choice([0.000001, 0.0005, 0.01, 0.2, rng.uniform(0, 0.5), rng.uniform(0, 5)]), 6)
     if rng.random() < p_dup:
@@ -395,6 +411,9 @@ def gen_c17(rng, index: Optional[int] = None, maxlen: int = 4, long: bool = Fals
         return {"engine": "udp", "config": cfg, "steps": uidify(steps)}
     k = rng.randrange(1, 5)
     cfg["ports"] = rng.choice([None, rng.sample(ALL_PORTS + [30001, 30002], k)])
+    if cfg["ports"] and rng.random() < 0.06:
+        # a port number no socket can be bound to: start must fail like on a busy port, and leave nothing behind
+        cfg["ports"].insert(rng.randrange(len(cfg["ports"]) + 1), rng.choice([70000, 65536, -1]))
     ports = cfg["ports"] or ALL_PORTS
     running = False
     occ: set = set()
@@ -412,6 +431,9 @@ def gen_c17(rng, index: Optional[int] = None, maxlen: int = 4, long: bool = Fals
             running = False
         elif r < 0.75:
             send(ports, late=rng.random() < 0.3)
+        elif r < 0.8 and rng.random() < 0.3:
+            steps.append({"kind": "sockerr", "port": rng.choice(ports), "delay": round(rng.uniform(0, 0.01), 6)})
+            steps.append({"kind": "sleep", "s": 0.05})
         elif r < 0.88 and not running:
             p = rng.choice(ports)
             steps.append({"kind": "occupy", "port": p})
